@@ -411,6 +411,8 @@ def _check_iradon(ctx, case):
         _judge(ctx, case, out[i], one, scale, K_BATCH, "iradon_torch batched call vs per-sinogram call (sinogram %d)" % i, "iradon_batch" + sfx, skip)
 
     if case.get("lin") is None:  # linearity is not repeated on the large problems
+        if not large:
+            _iradon_theta_reused(ctx, case, rr, th, sinos[0], N, fname, circle, out_size)
         target(min(worst / K_IRADON, 2.0), label="iradon err/tol")
         return
     a, b = float(case["lin"]["a"]), float(case["lin"]["b"])
@@ -425,7 +427,24 @@ def _check_iradon(ctx, case):
     Iz = _shape(case, Iz, (out_size, out_size), "iradon_torch(2-D sinogram)", squeeze_ok=False)
     scale = EPS32 * (N + 8) * (abs(a) * float(np.abs(sinos[0].astype(np.float64)).max()) + abs(b) * float(np.abs(y.astype(np.float64)).max()))
     _judge(ctx, case, Iz, a * singles[0] + b * Iy, scale, 2 * K_IRADON, "iradon_torch linearity I(a s + b u) vs a I(s) + b I(u), a=%r b=%r" % (a, b), "iradon_linearity", skip)
+    if not large:
+        _iradon_theta_reused(ctx, case, rr, th, sinos[0], N, fname, circle, out_size)
     target(min(worst / K_IRADON, 2.0), label="iradon err/tol")
+
+
+def _iradon_theta_reused(ctx, case, rr, th, sino, N, fname, circle, out_size):
+    """History: the caller's theta tensor is used, shifted in place by 37 degrees and used again; the second call is
+    judged against skimage.iradon at the NEW angles (seeded change C07-12 covers radon_torch and iradon_torch)."""
+    import torch
+
+    with ctx.sut(case, "iradon_torch(theta buffer), buffer += 37 in place, iradon_torch(same buffer)"):
+        rr.iradon_torch(torch.from_numpy(sino.copy()), theta=th, filter_name=fname, circle=circle)
+        th.add_(37)
+        again = rr.iradon_torch(torch.from_numpy(sino.copy()), theta=th, filter_name=fname, circle=circle)
+    again = _shape(case, _np(again), (out_size, out_size), "iradon_torch(2-D sinogram)", squeeze_ok=False)
+    th_new = th.to(torch.float64).numpy().copy()
+    scale = EPS32 * (N + 8) * float(np.abs(sino.astype(np.float64)).max())
+    _judge(ctx, case, again, ref.ref_iradon(sino, th_new, fname, circle), scale, K_IRADON, "iradon_torch vs skimage.iradon after the caller's theta tensor was refilled in place (filter %r, circle=%s)" % (fname, circle), "iradon_theta_reused", ref.unstable_pixels(N, th_new, circle))
 
 
 def _check_filter(ctx, case):
